@@ -8,4 +8,4 @@ Extraction "Extract/tree_model.ml"
   TreeModel.init_state TreeModel.init_fragment TreeModel.tokenizer_state_for_context_elem
   TreeModel.process_token TreeModel.tb_end
   TreeModel.adjusted_current_node_present_but_not_in_html_namespace TreeModel.take_out TreeModel.arm_counts
-  TreeTypes.ns_html TreeTypes.ns_svg TreeTypes.ns_mathml TreeTypes.qn_elem TreeTypes.qn_plain.
+  DomSpec.init DomSpec.apply TreeTypes.ns_html TreeTypes.ns_svg TreeTypes.ns_mathml TreeTypes.qn_elem TreeTypes.qn_plain.
